@@ -211,7 +211,17 @@ func (r *Router) sendPingMsg(opts sendPingOpts) error {
 	default:
 		// Destination router is not known, sign raw.
 		f.SetTTL(0)
-		f.SetSequenceTime(time.Now().Round(state.DefaultPrecision).Add(-state.DefaultPrecision))
+		seqTime := time.Now().Round(state.DefaultPrecision).Add(-state.DefaultPrecision)
+		if opts.onlyToPeer.IsValid() {
+			// The frame is handed to one peer only. That peer checks all our
+			// signed frames against a single sequence, so take the time from
+			// the sequence of the frames we sign for it. Otherwise a ping sent
+			// to it in the same millisecond makes it drop this frame as delayed.
+			if peerSession := r.instance.State().GetSession(opts.onlyToPeer); peerSession != nil {
+				seqTime = peerSession.Signing().Seq().Next()
+			}
+		}
+		f.SetSequenceTime(seqTime)
 		if err := f.SignRaw(r.instance.Identity().PrivateKey); err != nil {
 			return fmt.Errorf("sign frame: %w", err)
 		}
